@@ -1,4 +1,5 @@
 import RdsProofs.TransAbs
+import RdsProofs.TransGroupsBase
 import RdsModel.Generated
 /-!
 # RdsProofs.TransTables — the tables of the C *source text* equal the tables read out of the *compiled* library
@@ -38,6 +39,48 @@ theorem cfgC_ecc_generated (u : Bool) (nib e : Nat) (hn : nib < 16) (he : e < 25
     Option.map_some, Option.getD_some] at h
   simpa [cfgC, Generated.cfg, List.getD_eq_getElem?_getD] using h
 
+/-! ## every value the source's ECC look-up can return is a valid country enumerator (`< countryCount`, not just `< 256`) -/
+
+theorem tt_tab_range (B : Int) (hB : 0 < B) (T : List (List Int)) (hT : ∀ row ∈ T, ∀ x ∈ row, 0 ≤ x ∧ x < B) (i j : Int) :
+    0 ≤ getI (getL T i) j ∧ getI (getL T i) j < B := by
+  unfold getI getL
+  simp only [List.getD_eq_getElem?_getD]
+  cases h1 : T[i.toNat]? with
+  | none => simp; omega
+  | some row =>
+    have hrow := hT row (List.mem_of_getElem? h1)
+    simp only [Option.getD_some]
+    cases h2 : row[j.toNat]? with
+    | none => simp; omega
+    | some x => simpa using hrow x (List.mem_of_getElem? h2)
+
+theorem tt_tabA : ∀ row ∈ c_rdsparser_ecc_a0_a6_lut, ∀ x ∈ row, 0 ≤ x ∧ x < (Generated.countryCount : Int) := by decide
+theorem tt_tabD : ∀ row ∈ c_rdsparser_ecc_d0_d4_lut, ∀ x ∈ row, 0 ≤ x ∧ x < (Generated.countryCount : Int) := by decide
+theorem tt_tabE : ∀ row ∈ c_rdsparser_ecc_e0_e5_lut, ∀ x ∈ row, 0 ≤ x ∧ x < (Generated.countryCount : Int) := by decide
+theorem tt_tabF : ∀ row ∈ c_rdsparser_ecc_f0_f4_lut, ∀ x ∈ row, 0 ≤ x ∧ x < (Generated.countryCount : Int) := by decide
+
+theorem tt_countryCount_pos : (0 : Int) < (Generated.countryCount : Int) := by decide
+
+/-- for EVERY argument pair (not only the API's ranges) the source's look-up returns a valid enumerator -/
+theorem tt_ecc_range (pi ecc : Int) :
+    0 ≤ c_rdsparser_ecc_lookup pi ecc ∧ c_rdsparser_ecc_lookup pi ecc < (Generated.countryCount : Int) := by
+  have hB := tt_countryCount_pos
+  rw [tg_ecc_shape]
+  split
+  · unfold tg_eccCore
+    simp only []
+    split
+    · exact tt_tab_range _ hB _ tt_tabA _ _
+    · split
+      · exact tt_tab_range _ hB _ tt_tabD _ _
+      · split
+        · exact tt_tab_range _ hB _ tt_tabE _ _
+        · split
+          · exact tt_tab_range _ hB _ tt_tabF _ _
+          · omega
+  · omega
+
+#print axioms tt_ecc_range
 #print axioms cfgC_g0_generated
 #print axioms cfgC_ecc_generated
 end RDS.C
